@@ -14,5 +14,6 @@ RULES = [
     ("C06.filter", lambda c, r: lfht.rule_filter(c, r, "C06.filter")),
     ("C06.pub", lambda c, r: lfht.rule_pub(c, r, "C06.pub")),
     ("C06.iter", lambda c, r: lfht.rule_iter(c, r, "C06.iter")),
+    ("C06.del", lambda c, r: lfht.rule_del(c, r, "C06.del")),
 ]
 FLOORS = {}
